@@ -84,7 +84,8 @@ PROPS['C16'] = dict(
 PROPS['C19'] = dict(
     level='other',
     claim='TaskDescription._verify: every deprecated attribute is carried over to its replacement with the same value and cleared, mode requirements raise exactly when the required attribute is missing, the result is a normal form and a fixpoint (idempotence lemma); all obligations discharged. The as_dict()/constructor round trip and the function-payload encoding live in radical.utils / dill and are not decided here',
-    note='slot format conversions and the dill/msgpack payload round trip are not yet under contract',
+    note='convert_slots_to_new is under contract for slots whose cores / GPUs are RO objects (the form the agent scheduler produces; placement preserved); the other accepted encodings (ints, dicts, pairs) and convert_slots_to_old are exercised by a bounded conversion sweep only; the dill/msgpack payload round trip is not decided',
+    bounded=[dict(name='slot-formats', cmd=['harness/run_bounded.py', 'slot-formats'], timeout=600)],
     assumptions=['A1', 'A2', 'A11'],
     explanation='alias + normal-form + fixpoint postconditions on the real _verify, idempotence as a lemma over the contract; ru.TypedDict attribute semantics (self.x is self["x"]) assumed',
     trusted_base=['ru.TypedDict (radical.utils): attribute access equals item access; as_dict/constructor round trip'],
@@ -92,7 +93,7 @@ PROPS['C19'] = dict(
              'mode requirements enforced': 'P', 'idempotent': 'P',
              'dict round trip (ru.TypedDict)': 'A',
              'function payload encode/decode (dill)': 'N',
-             'slot format conversion': 'not yet built'})
+             'slot format conversion': 'P (RO form) + B (all encodings, old -> new -> old)'})
 
 PROPS['C20'] = dict(
     level='other',
@@ -157,17 +158,19 @@ PROPS['C14'] = dict(
 PROPS['C17'] = dict(
     level='other',
     claim='(a) every shipped platform entry (63, re-read on every run), with the ResourceConfig defaults applied, names a resource manager, launch methods, scheduler, executor and agent configuration that exist in the factories / on disk, has a defined default schema and well-formed schemas; the factory key sets and classes are read from the AST: decided exhaustively. (b) the node-count arithmetic of _prepare_pilot (fragment): an explicit node count is kept; a derived one covers the requested cores and GPUs with the cores / GPUs available per node and is the smallest that does; no usable core count with an explicit node count is refused',
-    note='blocked cores / SMT scaling before the fragment, backup nodes, and the hand-over of the same figures to the agent configuration and the job description are not under contract (the rest of _prepare_pilot: 400 lines of file system and configuration plumbing)',
+    note='blocked cores / SMT scaling before the fragment, backup nodes, and the hand-over of the same figures to the agent configuration and the job description are not under contract (the rest of _prepare_pilot: 400 lines of file system and configuration plumbing); they are exercised by a bounded native run of the real _prepare_pilot over every shipped platform (labelled bounded)',
+    bounded=[dict(name='pilot-sizing', cmd=['harness/run_bounded.py', 'pilot-sizing'], timeout=600)],
     assumptions=['A1', 'A2', 'A11'],
     explanation='finite obligation family over the shipped configuration files x factories',
     clauses={'every platform x schema resolves to existing code': 'P (finite, exhaustive)',
              'smallest number of whole nodes covering cores/GPUs': 'P (fragment); backup nodes not covered',
-             'agent told the same figures': 'N'})
+             'usable cores = cores x SMT - blocked; backup nodes; agent told the same figures': 'B (every shipped platform x 6-8 sizes)'})
 
 PROPS['C18'] = dict(
     level='other',
     claim='node list construction (_get_node_list: one entry per allocated node, indices = positions, configured cores/GPUs all free), uniform core count (_get_cores_per_node), blocked-core/GPU marking (fragment of _init_from_scratch: exactly the listed indices DOWN on every node), and _filter_nodes (never empty, never longer than requested, a sub-list of the allocated nodes, agent and service nodes set aside and pairwise disjoint) are verified for every node list; lemma C01.init: the resulting list satisfies the scheduler invariant',
-    note='node-file parsing (_parse_nodefile: file I/O), the per-batch-system init_from_scratch (Slurm, LSF, PBSPro ...), and the registry hand-over to other components are not under contract; the ssh probe in _filter_nodes is replaced by an arbitrary order-preserving sub-list (listed under dropped statements)',
+    bounded=[dict(name='node-files', cmd=['harness/run_bounded.py', 'node-files'], timeout=600)],
+    note='node-file parsing (_parse_nodefile: file I/O) is exercised by a bounded run over generated node files only; the per-batch-system init_from_scratch (Slurm, LSF, PBSPro ...) and the registry hand-over to other components are not under contract; the ssh probe in _filter_nodes is replaced by an arbitrary order-preserving sub-list (listed under dropped statements)',
     assumptions=['A1', 'A2', 'A3', 'A4', 'A8', 'A11'],
     trusted_base=['ru.sh_callout / Process (ssh probe): modelled as an arbitrary sub-list of the node list'],
     explanation='contracts on the RM base class functions that build and reduce the node list',
